@@ -1177,6 +1177,10 @@ func (f *fileConfig) GetParentIdFieldNames() []string {
 }
 
 func (f *fileConfig) GetConfigMetadata() []ConfigMetadata {
+	// the hashes are replaced by Reload under f.mux
+	f.mux.RLock()
+	defer f.mux.RUnlock()
+
 	ret := make([]ConfigMetadata, 2)
 	ret[0] = ConfigMetadata{
 		Type:     "config",
